@@ -197,6 +197,33 @@ pub fn false_plans(b: &Base, rng: &mut (impl RngCore + CryptoRng), a: i64, other
         p.claim_old[1] = n;
         v.push(p);
     }
+    // the public nonce is wrong, and the forger compensates inside the old state he claims (other slot
+    // moved the opposite way): only sound if the signature binds every slot separately
+    for (nm_, slot) in [("nonce+1-compensated-by-channel-id", 0usize), ("nonce+1-compensated-by-lock", 2), ("nonce+1-compensated-by-customer-balance", 3)] {
+        let mut p = derive(&t, nm_);
+        p.nonce_pub = b.old[1] + one;
+        p.w.old_state[1] = b.old[1] + one;
+        p.w.old_state[slot] = b.old[slot] - one;
+        if slot == 0 {
+            p.w.new_state[0] = p.w.old_state[0];
+            p.w.new_close[0] = p.w.old_state[0];
+        }
+        if slot == 2 {
+            p.w.committed_lock = p.w.old_state[2];
+        }
+        if slot == 3 {
+            p.w.new_state[3] -= one;
+            p.w.new_close[3] -= one;
+            let (cd, ci) = best_digits(b, nc - 1);
+            p.w.cust_digits = cd;
+            p.w.cust_sig_idx = ci;
+        }
+        p.claim_old = p.w.old_state;
+        p.claim_new = p.w.new_state;
+        p.claim_close = p.w.new_close;
+        p.claim_lock = p.w.committed_lock;
+        v.push(p);
+    }
     // amount / balance deviations (kept inside the range so that only the update equation is false)
     let mut bal = |name: &str, dc: i128, dm: i128, in_state: bool, in_close: bool| {
         let (c2, m2) = (nc + dc, nm + dm);
@@ -529,6 +556,10 @@ pub fn pay_relations_ref(b: &Base, pr: &PayProver, r: &PayResponses, c: &Scalar,
 pub struct PayJudge<'a> {
     pub b: &'a Base,
     pub context: Vec<u8>,
+    /// property id used in violation signatures (C02; C05 reuses one plan)
+    pub prop: &'static str,
+    /// public nonces under which this base's pay token has been accepted so far
+    pub accepted_nonces: std::cell::RefCell<std::collections::BTreeSet<[u8; 32]>>,
 }
 
 impl<'a> PayJudge<'a> {
@@ -612,6 +643,17 @@ impl<'a> PayJudge<'a> {
             }
             Some(sig_b) => {
                 c.count("accepted", 1);
+                // one pay token, two nonces: whatever the reason, this is the double spend the property names
+                if plan.w.token == b.token {
+                    let mut set = self.accepted_nonces.borrow_mut();
+                    let _ = set.insert(nonce_pub.to_bytes());
+                    if set.len() > 1 {
+                        c.violation(
+                            &format!("{} same-pay-token-accepted-under-two-nonces {}", self.prop, label),
+                            json!({"label": label, "nonces": set.iter().map(|n| hex(n)).collect::<Vec<_>>(), "history": b.history}),
+                        );
+                    }
+                }
                 let csig = c.ok(unblind_bytes(sig_b, &pr.close.bf))?;
                 let on_close = ps_verify_ref(&b.m.pk, &csig.0, &csig.1, &pr.close.msg);
                 if t.truth {
@@ -627,7 +669,7 @@ impl<'a> PayJudge<'a> {
                     let foreign_completed = matches!(completion, Some((Some(true), _)));
                     if on_close || token_link_false || foreign_completed {
                         c.violation(
-                            &format!("C02 forgery-accepted {}", label),
+                            &format!("{} forgery-accepted {}", self.prop, label),
                             json!({
                                 "label": label,
                                 "why_false": t.reasons,
@@ -756,6 +798,9 @@ pub fn base_specs(tier: crate::ctx::Tier) -> Vec<(u64, u64, Vec<i64>, i64)> {
         (MAXB, 0, vec![], 1),
         (0, MAXB, vec![], -1),
         (1 << 40, 1 << 40, vec![1, 2, 3], 1 << 39),
+        // a balance within reach of 2^63-1: the out-of-range variants can push it to exactly 2^63
+        (100, MAXB - 5, vec![], 3),
+        (MAXB - 5, 100, vec![], -3),
     ];
     if tier == crate::ctx::Tier::Thorough {
         v.extend(vec![
@@ -796,7 +841,7 @@ pub fn run(c: &mut Ctx) {
                 c.note(&format!("base{}_skipped", bi), json!("history or attacked amount out of range by the ideal ledger"));
                 continue;
             }
-            let ngroups = 6usize;
+            let ngroups = c.tier.pick(4usize, 6);
             for g in 0..ngroups {
                 let name = format!("m{}/base{}/group{}", mi, bi, g);
                 c.case(&name, |c| {
@@ -808,7 +853,7 @@ pub fn run(c: &mut Ctx) {
                     let mut rng = c.rng(&name);
                     let mut context = vec![0u8; 8];
                     rng.fill_bytes(&mut context);
-                    let j = PayJudge { b: &b, context };
+                    let j = PayJudge { b: &b, context, prop: "C02", accepted_nonces: Default::default() };
                     // positive control
                     {
                         let p = true_plan(&b, &mut rng, a);
